@@ -1,0 +1,58 @@
+//go:build verif
+
+// Contracts for the deductive verification of the prober helpers (comment-only; build tag verif). Property C18.
+
+package prober
+
+//@ import metadata "google.golang.org/grpc/metadata"
+//@ import time "time"
+//@ option seq=bytes
+//@ autotagfn nopanic parseT4T7Latency C18
+//@ autotagfn nopanic backoff C18
+//@ autotagfn nopanic probeInterval C18
+//@ autotagfn nopanic instanceURI C18
+//@ autotagfn nopanic databaseURI C18
+//@ autotagfn nopanic instanceConfigURI C18
+//@ autotagfn nopanic projectURI C18
+//@ autotagfn nopanic ParseProbeType C18
+//@ autotagfn nopanic init$1 C18
+//@ autotagfn term parseT4T7Latency C18
+//@ autotagfn reach parseT4T7Latency C18
+
+//@ spec firstGfe(list []string, upto int) := forall j, x in list :: j < upto ==> !hasprefix(x, gfeT4T7prefix)
+//@ func parseT4T7Latency
+//@   ensures [C18.t4t7-header-first] len(headers[serverTimingKey]) > 0 ==> serverTiming == headers[serverTimingKey]
+//@   ensures [C18.t4t7-trailer-second] len(headers[serverTimingKey]) == 0 && len(trailers[serverTimingKey]) > 0 ==> serverTiming == trailers[serverTimingKey]
+//@   ensures [C18.t4t7-absent] len(headers[serverTimingKey]) == 0 && len(trailers[serverTimingKey]) == 0 ==> $ret1 != nil
+//@   ensures [C18.t4t7-first-entry] $ret1 == nil ==> 0 <= $i && $i < len(serverTiming) && hasprefix(serverTiming[$i], gfeT4T7prefix) && firstGfe(serverTiming, $i)
+//@   ensures [C18.t4t7-value] $ret1 == nil && -9223372036854 <= intval(trimprefix(serverTiming[$i], gfeT4T7prefix)) && intval(trimprefix(serverTiming[$i], gfeT4T7prefix)) <= 9223372036854 ==> $ret0 == intval(trimprefix(serverTiming[$i], gfeT4T7prefix)) * 1000000
+//@   ensures [C18.t4t7-value@overflow] $ret1 == nil ==> $ret0 == intval(trimprefix(serverTiming[$i], gfeT4T7prefix)) * 1000000
+//@   ensures [C18.t4t7-none] $ret1 != nil || (exists j, x in serverTiming :: hasprefix(x, gfeT4T7prefix))
+//@   loop 1 invariant firstGfe(serverTiming, $i + 1)
+
+//@ func (opt *ProberOptions) instanceURI
+//@   ensures [C18.uri-segments] result == "projects/" + opt.Project + "/instances/" + opt.Instance
+//@ func (opt *ProberOptions) databaseURI
+//@   ensures [C18.uri-segments] result == "projects/" + opt.Project + "/instances/" + opt.Instance + "/databases/" + opt.Database
+//@ func (opt *ProberOptions) instanceConfigURI
+//@   ensures [C18.uri-segments] result == "projects/" + opt.Project + "/instanceConfigs/" + opt.InstanceConfig
+//@ func (opt *ProberOptions) projectURI
+//@   ensures [C18.uri-segments] result == "projects/" + opt.Project
+
+//@ spec probeTypeValid(t string) := t == "noop" || t == "stale_read" || t == "strong_query" || t == "stale_query" || t == "dml" || t == "read_write"
+//@ func ParseProbeType
+//@   ensures [C18.probe-type] ($ret1 == nil) == probeTypeValid(t)
+
+//@ func (p *Prober) probeInterval
+//@   requires [C18.assume-validated-qps] p.qps >= 0.000000001 && p.qps <= 1000.0
+//@   ensures [C18.interval-positive] result > 0
+
+//@ autotagfn term backoff C18
+//@ func backoff
+//@   ensures [C18.backoff-lower] baseDelay <= maxDelay ==> result >= baseDelay
+//@   ensures [C18.backoff-upper] baseDelay <= maxDelay ==> result <= maxDelay
+//@   loop 1 invariant max == tofloat(maxDelay) && !isnan(backoff) && (0 <= baseDelay ==> backoff >= tofloat(baseDelay))
+//@   loop 1 decreases retries
+//@ func init$1
+//@   requires [C18.assume-validated-size] size >= 0
+//@   ensures [C18.payload-hash] $ret2 == nil ==> seq($ret1) == sha256(seq($ret0)) && len($ret0) == size
